@@ -20,23 +20,24 @@ import Nuts.Model.ZSetA
 import NutsProofs.Lemmas.ZSetOrder
 import NutsProofs.Lemmas.SkiplistRank
 import NutsProofs.Facts
+import NutsProofs.Lemmas.Isolation
 namespace NutsProofs.C07
 open Nuts Nuts.Model Nuts.Model.ZSetA NutsProofs NutsProofs.ZOrd
 
 /-! ### the node list -/
 
 /-- **Put** keeps the node list strictly ordered by (score, key) -/
-theorem C07_put_sorted (s : St) (k : Bytes) (sc : Int) (v : Bytes) (h : Sorted s) : Sorted (put s k sc v) :=
+theorem C07_put_sorted (s : St) (k : Bytes) (sc : Int) (v : Bytes) (h : ZOrd.Sorted s) : ZOrd.Sorted (put s k sc v) :=
   put_sorted s k sc v h
 
-theorem C07_remove_sorted (s : St) (k : Bytes) (h : Sorted s) : Sorted (remove s k) := remove_sorted s k h
+theorem C07_remove_sorted (s : St) (k : Bytes) (h : ZOrd.Sorted s) : ZOrd.Sorted (remove s k) := remove_sorted s k h
 
 /-- inserting a node whose key is new keeps the list strictly ordered -/
-theorem C07_insert_sorted (s : St) (n : Node) (h : Sorted s) (hk : ∀ x ∈ s, x.key ≠ n.key) :
-    Sorted (insertSorted s n) := insertSorted_sorted s n h hk
+theorem C07_insert_sorted (s : St) (n : Node) (h : ZOrd.Sorted s) (hk : ∀ x ∈ s, x.key ≠ n.key) :
+    ZOrd.Sorted (insertSorted s n) := insertSorted_sorted s n h hk
 
 /-- in a sorted list the minimum is the head -/
-theorem C07_head_is_min (x : Node) (xs : St) (h : Sorted (x :: xs)) : ∀ y ∈ xs, Lt x y := head_is_min x xs h
+theorem C07_head_is_min (x : Node) (xs : St) (h : ZOrd.Sorted (x :: xs)) : ∀ y ∈ xs, Lt x y := head_is_min x xs h
 
 /-- ties on the score are ordered by key: `a` before `b` at equal scores -/
 theorem C07_witness_ties : (put (put [] [98] 1 []) [97] 1 []).map (·.key) = [[97], [98]] := by decide
@@ -140,7 +141,7 @@ every member has between 1 and `level` levels — and **every stored span of eve
 next tower that has that level** (to the end of the list when there is none). -/
 theorem C07_skiplist_refines_sorted_list (ops : List ZOp) (hl : OpsOk [] ops) :
     nodes (ops.foldl stepSL Skiplist.empty) = ops.foldl stepZ [] ∧
-    Sorted (nodes (ops.foldl stepSL Skiplist.empty)) ∧
+    ZOrd.Sorted (nodes (ops.foldl stepSL Skiplist.empty)) ∧
     ((nodes (ops.foldl stepSL Skiplist.empty)).map (·.key)).Nodup ∧
     Inv (ops.foldl stepSL Skiplist.empty) := by
   obtain ⟨a, b⟩ := history_refines ops Skiplist.empty [] oinv_empty rfl hl
@@ -229,6 +230,21 @@ theorem C07_skiplist_queries (ops : List ZOp) (hl : OpsOk [] ops) :
 whether or not a generated history reaches it. -/
 theorem C07_span_arithmetic_regenerated : NutsGen.F.spanStmts = NutsProofs.Facts.expectedSpanStmts :=
   NutsProofs.Facts.span_arithmetic_ok
+
+open Nuts.Model.DB NutsProofs.Reopen NutsProofs.ReopenAll NutsProofs.Isolation in
+/-- **C07, sorted sets through transactions, every history.** After any history of successfully committed
+transactions over all four structures, with reopens (key+value mode), the sorted set of bucket `b` is what the
+committed sorted-set records of that bucket produce, applied in commit order to the empty set: `ZAdd` =
+`ZSetA.put`, `ZRem` = `remove`, `ZRemRangeByRank` = `getByRankRange … true`, `ZPopMax` / `ZPopMin` = the pops —
+the list operations the skiplist is proved to refine above — whatever other buckets and structures did in
+between. -/
+theorem C07_zsets_after_every_history (opt0 : Opts) (ops : List OpA) (hok : OpsOkA (openDB opt0 []).1 ops) (b : Bytes) :
+    let s := ops.foldl stepA (openDB opt0 []).1
+    (aget? s.zsets b).getD [] =
+      ((((allRecs s.files).map (·.1)).filter fun r => r.bucket == b).filter fun r => r.ds == dsZSet).foldl
+        (fun z r => (applyZSet z r false).1) [] := by
+  intro s
+  exact (structures_of_own_records s (allInv_ops ops _ (allInv_init opt0) hok) b).2
 
 /-- the history of the witness below -/
 def wOps : List ZOp := [.put [98] 1 [1] 1, .put [97] 1 [2] 3, .put [99] 0 [3] 2, .put [98] 5 [4] 2, .rem [97], .remRange (-1) 5, .popMin]
